@@ -98,7 +98,8 @@ def conduct_steps(hist):
     outstanding = {}      # model broker-worker index -> number of its request at the cluster
     skip_recv = set()     # (bp, id, part, retries, flag): the same message again after a roll-over
     last_flush = {}
-    feat = dict(bounces=0, parked=0, late_fin=0, jumps=0, maxhwm=0, faults=0, conn=0, parts=set(), sends=0, multi=0)
+    feat = dict(bounces=0, parked=0, late_fin=0, jumps=0, maxhwm=0, faults=0, conn=0, parts=set(), sends=0, multi=0, mixed=0)
+    parked_levels = {}    # partition -> retry levels of the messages parked in the current retry phase, in arrival order
     for h in hist:
         a = h["a"]
         if a == "submit":
@@ -111,8 +112,15 @@ def conduct_steps(hist):
                 last_flush.pop(h["part"], None)
                 hw = h["hwm"]
                 feat["maxhwm"] = max(feat["maxhwm"], hw, h["retries"])
+                if hw == 0:
+                    parked_levels[h["part"]] = []
                 if h["retries"] < hw:
                     feat["late_fin" if h["flag"] == "fin" else "parked"] += 1
+                    if h["flag"] != "fin":
+                        lv = parked_levels.setdefault(h["part"], [])
+                        if lv and h["retries"] > min(lv):
+                            feat["mixed"] += 1      # a message of a higher level is parked after one of a lower level
+                        lv.append(h["retries"])
                 if h["retries"] > hw + 1:
                     feat["jumps"] += 1
         elif a == "ppstep":
@@ -180,7 +188,7 @@ def conducted(ctx, key, num, pool=None, depth=400):
     whose internal steps the conductor of the Go driver follows at the hook points."""
     import concurrent.futures
     cfgname, dcfg, nmsgs, windows = CONDUCT[key]
-    pool = pool or max(6 * num, 300)
+    pool = pool or max(15 * num, 600)       # behaviours simulated per submission window
 
     def simulate(w):
         cfgp = cfgname
@@ -191,8 +199,8 @@ def conducted(ctx, key, num, pool=None, depth=400):
             cfgp = os.path.join(ctx.scratch, "%s.w%d.cfg" % (key, w))
             with open(cfgp, "w") as f:
                 f.write(txt)
-        r_ = ctx.tlc("MCProducer", cfgp, workers=1, timeout=600, simulate="num=%d" % (pool // len(windows)), depth=depth, seed=ctx.seed,
-                     name="%s.w%d" % (key, w))
+        r_ = ctx.tlc("MCProducer", cfgp, workers=2, timeout=600, simulate="num=%d" % (pool // 2), depth=depth, seed=ctx.seed,
+                     name="%s.w%d" % (key, w), heap="1g")
         if r_.error and "CONDUCT" not in r_.out:
             ctx.need(r_, "behaviour generation %s (window %d)" % (key, w))
         return r_
@@ -206,13 +214,18 @@ def conducted(ctx, key, num, pool=None, depth=400):
             if js not in seen:
                 seen[js] = (windows[k_], json.loads(js))
     cands = []
-    for js, (win, hist) in seen.items():
+    for js, (win, hist) in sorted(seen.items()):      # (TLC's simulation workers print in any order)
         if sum(1 for h in hist if h["a"] == "submit") < nmsgs:
             continue
         steps, plans, feat = conduct_steps(hist)
         if feat["bounces"] == 0:
             continue
-        score = 4 * feat["late_fin"] + 3 * feat["jumps"] + 2 * min(feat["parked"], 3) + 2 * (feat["maxhwm"] >= 2) + (feat["parts"] >= 2) + (feat["multi"] > 0)
+        if dcfg["idem"] and feat["conn"] and ctx.tier == "quick":
+            # what the idempotent producer does after a connection-level failure is the territory of the recorded findings
+            # (known_findings.json; free-running families cover it): the quick tier conducts the other behaviours
+            continue
+        score = 4 * min(feat["late_fin"], 2) + 2 * min(feat["jumps"], 2) + 2 * min(feat["parked"], 3) + 6 * min(feat["mixed"], 2) + 2 * (feat["maxhwm"] >= 2) + \
+            (feat["parts"] >= 2) + (feat["multi"] > 0)
         if dcfg["idem"]:
             # what the idempotent producer does after a connection-level failure is the territory of the recorded findings
             # (known_findings.json): behaviours without one say more
@@ -886,6 +899,8 @@ def check(ctx, pid, families, mc_cfgs, level="model_checking", extra_assumptions
     if only_conduct:
         families = [f for f in families if isinstance(f, tuple) and f[0] == "conduct"]
         mc_cfgs, extra_mc, close_stride = [], [], 0
+    if os.environ.get("VERIF_CONDUCT_OFF"):                        # timing comparisons: the check as it was without them
+        families = [f for f in families if not (isinstance(f, tuple) and f[0] == "conduct")]
     pool = concurrent.futures.ThreadPoolExecutor(max_workers=4)
     pending = {f: pool.submit(conducted, ctx, f[1], f[2]) for f in families if isinstance(f, tuple) and f[0] == "conduct"}
     try:
